@@ -113,6 +113,10 @@ def check(case):
         return check_local(case)
     from superrec2.model.reconciliation import ReconciliationOutput, SuperReconciliationOutput
 
+    if int(case_hash(case), 16) % 3 == 0:
+        # family names whose natural-sort, string-sort and case orders differ (g9/g10, 16S, trnA, x1y10/x1y9 ...)
+        fams0 = sorted({f for v in case["leaf_syntenies"].values() for f in v})
+        case = gen.rename_families(case, gen.alt_family_map(fams0, salt=int(case_hash(case), 16) % 7))
     inst = Instance(case)
     lab_o, lab_u = case["_lab_o"], case["_lab_u"]
     inp = pkg.make_input(case, labelled=True)
